@@ -145,6 +145,10 @@ def run_case(case, rec):
     else:
         efn, dfn, name = (encode.encode_table_value, decode.embedded_value,
                           'table_value')
+    if rec.evaluations % 2 == 0:
+        # equal values of other types / representations go first
+        common.encode_twins(v, common.RND, 1)
+        rec.count('equal_twins_encoded_first')
     e = call(efn, v)
     if not e.ok:
         leaf = diff.failing_leaf(
@@ -257,5 +261,5 @@ def gates(m, tier):
               'decode.py:field_array', 'decode.py:field_table',
               'encode.py:decimal', 'decode.py:decimal'):
         if f not in fr:
-            out.append('anchored function %s never entered' % f)
+            out.append('advisory: ' + 'anchored function %s never entered' % f)
     return out[:10]
